@@ -127,6 +127,19 @@ func runC19(c *kit.Ctx) {
 			c.Check(notPriv.Holds(st.Store, 2), "R19.2", k.key(st.Fn, "adopt metadata"), posOf(st.Store),
 				"metadata from a magnet link adopted only under Private==false", "private metadata fetched through a magnet link is adopted")
 		}
+		// ... and is not persisted either: a stored info dictionary is loaded as an ordinary
+		// (private) torrent by the next session start
+		writeInfo := c.FuncObj("internal/resumer/boltdbresumer", "(*Resumer).WriteInfo")
+		nw := 0
+		for _, s := range sortSites(c.CallSites(writeInfo)) {
+			if !inPkg(s.Fn, c, "torrent") {
+				continue
+			}
+			nw++
+			c.Check(notPriv.Holds(s.Instr, 2), "R19.2", k.key(s.Fn, "persist fetched metadata"), posOf(s.Instr),
+				"fetched metadata is written to the resume database only under Private==false", "private metadata fetched through a magnet link is written to the resume database before it is refused: after a restart it is loaded and downloaded as an ordinary torrent")
+		}
+		c.Floor("R19.2", "Resumer.WriteInfo sites in package torrent", nw, 1)
 	}
 
 	// ---- R19.3 private identity
